@@ -466,10 +466,7 @@ func (f *File) Readdirnames(n int) ([]string, error) {
 		"n":    n,
 	})
 
-	if !f.info.IsDir() {
-		return []string{}, config.ErrIsFile
-	}
-
+	// Readdir refuses files while holding the lock
 	dirs, err := f.Readdir(n)
 	if err != nil {
 		return []string{}, err
@@ -498,12 +495,16 @@ func (f *File) Read(p []byte) (n int, err error) {
 		return 0, nil
 	}
 
+	f.ioLock.Lock()
+	defer f.ioLock.Unlock()
+
+	return f.readWithoutLocking(p)
+}
+
+func (f *File) readWithoutLocking(p []byte) (n int, err error) {
 	if f.info.IsDir() {
 		return 0, config.ErrIsDirectory
 	}
-
-	f.ioLock.Lock()
-	defer f.ioLock.Unlock()
 
 	if f.writeBuf != nil {
 		return f.writeBuf.Read(p)
@@ -571,15 +572,19 @@ func (f *File) ReadAt(p []byte, off int64) (n int, err error) {
 		return 0, nil
 	}
 
+	// Seek and read as one step, so that no other call on this handle can move the offset in between
+	f.ioLock.Lock()
+	defer f.ioLock.Unlock()
+
 	if f.info.IsDir() {
 		return 0, config.ErrIsDirectory
 	}
 
-	if _, err := f.Seek(off, io.SeekStart); err != nil {
+	if _, err := f.seekWithoutLocking(off, io.SeekStart); err != nil {
 		return 0, err
 	}
 
-	return f.Read(p)
+	return f.readWithoutLocking(p)
 }
 
 // Read/write operations
@@ -603,6 +608,9 @@ func (f *File) Write(p []byte) (n int, err error) {
 		"p":    len(p),
 	})
 
+	f.ioLock.Lock()
+	defer f.ioLock.Unlock()
+
 	if f.info.IsDir() {
 		return 0, config.ErrIsDirectory
 	}
@@ -610,9 +618,6 @@ func (f *File) Write(p []byte) (n int, err error) {
 	if !f.flags.Write {
 		return 0, os.ErrPermission
 	}
-
-	f.ioLock.Lock()
-	defer f.ioLock.Unlock()
 
 	if err := f.enterWriteMode(); err != nil {
 		return 0, err
@@ -640,6 +645,9 @@ func (f *File) WriteAt(p []byte, off int64) (n int, err error) {
 		"off":  off,
 	})
 
+	f.ioLock.Lock()
+	defer f.ioLock.Unlock()
+
 	if f.info.IsDir() {
 		return 0, config.ErrIsDirectory
 	}
@@ -647,9 +655,6 @@ func (f *File) WriteAt(p []byte, off int64) (n int, err error) {
 	if !f.flags.Write {
 		return 0, os.ErrPermission
 	}
-
-	f.ioLock.Lock()
-	defer f.ioLock.Unlock()
 
 	if err := f.enterWriteMode(); err != nil {
 		return 0, err
@@ -680,6 +685,9 @@ func (f *File) WriteString(s string) (ret int, err error) {
 		"s":    len(s),
 	})
 
+	f.ioLock.Lock()
+	defer f.ioLock.Unlock()
+
 	if f.info.IsDir() {
 		return 0, config.ErrIsDirectory
 	}
@@ -687,9 +695,6 @@ func (f *File) WriteString(s string) (ret int, err error) {
 	if !f.flags.Write {
 		return 0, os.ErrPermission
 	}
-
-	f.ioLock.Lock()
-	defer f.ioLock.Unlock()
 
 	if err := f.enterWriteMode(); err != nil {
 		return 0, err
@@ -711,6 +716,9 @@ func (f *File) Truncate(size int64) error {
 		"size": size,
 	})
 
+	f.ioLock.Lock()
+	defer f.ioLock.Unlock()
+
 	if f.info.IsDir() {
 		return config.ErrIsDirectory
 	}
@@ -722,9 +730,6 @@ func (f *File) Truncate(size int64) error {
 	if size < 0 {
 		return os.ErrInvalid
 	}
-
-	f.ioLock.Lock()
-	defer f.ioLock.Unlock()
 
 	if err := f.enterWriteMode(); err != nil {
 		return err
